@@ -205,24 +205,31 @@ pub mod chunked {
     }
 
     pub fn encode(chunks: &[ChunkSpec], last: &str, trailers: &[&str]) -> Coding {
+        let raw: Vec<(Vec<u8>, Vec<u8>)> = chunks.iter().map(|c| ([c.size_txt.as_bytes(), c.ext.as_bytes()].concat(), c.data.clone())).collect();
+        let tr: Vec<Vec<u8>> = trailers.iter().map(|t| t.as_bytes().to_vec()).collect();
+        encode_bytes(&raw, last.as_bytes(), &tr)
+    }
+
+    /// The same construction over raw bytes: (size line without CRLF, data) per chunk, so that
+    /// extensions and trailers may carry obs-text.
+    pub fn encode_bytes(chunks: &[(Vec<u8>, Vec<u8>)], last: &[u8], trailers: &[Vec<u8>]) -> Coding {
         let mut bytes = Vec::new();
         let mut payload = Vec::new();
         let mut ranges = Vec::new();
         let mut boundaries = vec![0];
-        for c in chunks {
-            bytes.extend_from_slice(c.size_txt.as_bytes());
-            bytes.extend_from_slice(c.ext.as_bytes());
+        for (line, data) in chunks {
+            bytes.extend_from_slice(line);
             bytes.extend_from_slice(b"\r\n");
-            ranges.push((bytes.len(), payload.len(), c.data.len()));
-            bytes.extend_from_slice(&c.data);
-            payload.extend_from_slice(&c.data);
+            ranges.push((bytes.len(), payload.len(), data.len()));
+            bytes.extend_from_slice(data);
+            payload.extend_from_slice(data);
             bytes.extend_from_slice(b"\r\n");
             boundaries.push(bytes.len());
         }
-        bytes.extend_from_slice(last.as_bytes());
+        bytes.extend_from_slice(last);
         bytes.extend_from_slice(b"\r\n");
         for t in trailers {
-            bytes.extend_from_slice(t.as_bytes());
+            bytes.extend_from_slice(t);
             bytes.extend_from_slice(b"\r\n");
         }
         bytes.extend_from_slice(b"\r\n");
@@ -497,7 +504,9 @@ pub mod uri3986 {
     pub fn default_port(scheme: &str) -> Option<u16> {
         match scheme {
             "http" => Some(80),
-            "https" => Some(443),
+            "https" | "wss" => Some(443),
+            "ws" => Some(80),
+            "ftp" => Some(21),
             _ => None,
         }
     }
